@@ -56,7 +56,19 @@ func (rt *RoundTripper) RoundTrip(req *http.Request) (*http.Response, error) {
 	return resp, nil
 }
 
+// A stored response is found by url, method and Authorization only. Requests
+// with a body (anything but GET and HEAD) are therefore neither answered from
+// the cache nor are their responses stored, and a response the server declares
+// to depend on further request headers (Vary) is not stored either.
+func cacheable(req *http.Request) bool {
+	return req.Method == http.MethodGet || req.Method == http.MethodHead
+}
+
 func (rt *RoundTripper) cachedResponse(req *http.Request) (*http.Response, error) {
+	if !cacheable(req) {
+		return nil, ErrNoCacheEntry
+	}
+
 	ctx := req.Context()
 	cch := cache.Ctx(ctx)
 
@@ -69,6 +81,10 @@ func (rt *RoundTripper) cachedResponse(req *http.Request) (*http.Response, error
 }
 
 func (rt *RoundTripper) cacheResponse(req *http.Request, resp *http.Response) {
+	if !cacheable(req) || len(resp.Header.Values("Vary")) != 0 {
+		return
+	}
+
 	reasons, expires, err := cachecontrol.CachableResponse(req, resp, cachecontrol.Options{PrivateCache: true})
 	if err != nil || len(reasons) != 0 {
 		return
